@@ -184,7 +184,7 @@ func fullName(fn *types.Func) string { return fn.Origin().FullName() }
 
 var pureStd = map[string]bool{"time": true, "strings": true, "strconv": true, "math": true, "path": true, "path/filepath": true, "unicode": true,
 	"net/url": true, "sort": false, "bytes": true, "slices": true, "golang.org/x/exp/slices": true, "github.com/samber/lo": false,
-	"crypto/sha256": true, "encoding/hex": true}
+	"crypto/sha256": true, "encoding/hex": true, "reflect": true}
 
 func (e *Exec) callFunc(fn *types.Func, recvExpr ast.Expr, sel *types.Selection, call *ast.CallExpr, c *Ctx, want int, inst []types.Type) []Term {
 	name := fullName(fn)
@@ -216,6 +216,20 @@ func (e *Exec) dispatch(fn *types.Func, recv *Term, args []Term, call *ast.CallE
 		pkgPath = fn.Pkg().Path()
 	}
 	sig := fn.Type().(*types.Signature)
+	// interface method: closed-world case split if declared
+	if recv != nil && recv.T.K == KAny && e.topCon != nil && e.topCon.Dispatch != nil {
+		if in, ok := types.Unalias(sig.Recv().Type()).(*types.Named); ok {
+			impls, ok := e.topCon.Dispatch[in.Obj().Name()+"."+fn.Name()]
+			if !ok {
+				if _, hasIface := e.prog.contracts[e.topCon.PkgName+"."+in.Obj().Name()+"."+fn.Name()]; !hasIface {
+					impls, ok = e.topCon.Dispatch[in.Obj().Name()]
+				}
+			}
+			if ok {
+				return e.closedDispatch(fn, *recv, args, call, c, want, impls, in.Obj().Name())
+			}
+		}
+	}
 	// interface method: devirtualise if declared
 	if recv != nil && recv.T.K == KAny {
 		if conc := e.devirtTarget(fn, sig); conc != nil {
@@ -1614,4 +1628,71 @@ func refKind(t *Type) string {
 		return "chan"
 	}
 	return "cell"
+}
+
+// closedDispatch: case split of an interface method call over the implementing types named by the contract's
+// `dispatch` clause; every arm uses that implementation (its contract, or its body inlined). The interface value is
+// assumed to hold one of them (closed world, recorded as an assumption).
+func (e *Exec) closedDispatch(fn *types.Func, recv Term, args []Term, call *ast.CallExpr, c *Ctx, want int, impls []string, iface string) []Term {
+	e.externs["closed world: a "+iface+" value is one of "+strings.Join(impls, ", ")] = true
+	base := c.st
+	var states []*State
+	rts := e.resultTypes(call, c)
+	var tagConds []string
+	for _, tn := range impls {
+		tname := strings.TrimPrefix(strings.TrimSpace(tn), "*")
+		var conc *types.Func
+		for _, fi := range e.prog.funcs {
+			if fi.Obj.Name() != fn.Name() {
+				continue
+			}
+			s := fi.Obj.Type().(*types.Signature)
+			if s.Recv() == nil {
+				continue
+			}
+			r := s.Recv().Type()
+			if p, ok := r.(*types.Pointer); ok {
+				r = p.Elem()
+			}
+			if nn, ok := types.Unalias(r).(*types.Named); ok && nn.Obj().Name() == tname {
+				conc = fi.Obj
+			}
+		}
+		if conc == nil {
+			e.errorf("dispatch: no method %s on %s", fn.Name(), tn)
+			continue
+		}
+		csig := conc.Type().(*types.Signature)
+		rt := e.prog.TypeOf(csig.Recv().Type(), nil)
+		_, isT := e.fromAny(recv, rt, base)
+		tagConds = append(tagConds, isT)
+		br := base.clone()
+		e.assume(br, isT)
+		rv := Term{fmt.Sprintf("(a_val %s)", recv.S), rt}
+		c2 := *c
+		c2.st = br
+		res := e.dispatch(conc, &rv, append([]Term{}, args...), call, &c2, want, nil, nil)
+		for i, v := range res {
+			if i < len(rts) {
+				e.set(br, fmt.Sprintf("$disp!%d!%d", int(call.Pos()), i), e.coerce(v, rts[i], br))
+			}
+		}
+		states = append(states, br)
+	}
+	if len(states) == 0 {
+		return e.havocCall(call, c, want, "dispatch "+iface)
+	}
+	m := e.merge(states)
+	*c.st = *m
+	var out []Term
+	for i, t := range rts {
+		k := fmt.Sprintf("$disp!%d!%d", int(call.Pos()), i)
+		if v, ok := c.st.vars[k]; ok {
+			out = append(out, v)
+			delete(c.st.vars, k)
+		} else {
+			out = append(out, Term{e.vc.FreshConst("dead", e.Sort(t)), t})
+		}
+	}
+	return out
 }
